@@ -3,7 +3,10 @@ package sim
 import (
 	"fmt"
 	"math/rand/v2"
+	"strings"
 	"time"
+
+	"k8s.io/apimachinery/pkg/api/resource"
 
 	corev1 "k8s.io/api/core/v1"
 	"k8s.io/apimachinery/pkg/types"
@@ -326,11 +329,80 @@ func genC10(r *rand.Rand, tier string, idx int) *World {
 	}
 	// perturbations of malformed overrides are part of the admin vocabulary via Extra
 	w.Extra["malformed"] = pick(r, "0", "1")
+	// some nodes start with an override annotation (well-formed or not), also where a setting applies
+	for _, n := range w.Nodes {
+		if chance(r, 0.3) {
+			if n.Annotations == nil {
+				n.Annotations = map[string]string{}
+			}
+			ct := pick(r, "main", "main", "side")
+			n.Annotations[fmt.Sprintf(edsv1.ExtendedDaemonSetRessourceNodeAnnotationKey, "ns1", "foo", ct)] = pick(r, `{"requests":{"cpu":"300m"}}`, `{"requests":{"cpu":`, `{"limits":{"memory":"1Gi"}}`)
+		}
+	}
+	w.Extra["perturb"] = pick(r, "setting", "setting", "override", "template", "none")
+	w.Extra["body"] = "c10"
 	return w
 }
 
+func bodyC10(s *Sim) {
+	s.Setup()
+	s.Chaos()
+	s.Drain()
+	// let things settle, then one single-field perturbation; the quiesce phase judges that the
+	// affected pods are replaced and nothing else churns
+	r := subRng(s.Seed, "c10perturb")
+	s.W.Cfg.KubeletFaults = false
+	for i := 0; i < 3; i++ {
+		s.Round(r)
+	}
+	def := s.W.EDS[0]
+	switch s.W.Extra["perturb"] {
+	case "setting":
+		if sts := s.Store.Settings(); len(sts) > 0 {
+			st := sts[r.IntN(len(sts))]
+			if len(st.Spec.Containers) > 0 {
+				q := st.Spec.Containers[0].Resources.Requests[corev1.ResourceCPU]
+				nv := "700m"
+				if q.String() == "700m" {
+					nv = "800m"
+				}
+				st.Spec.Containers[0].Resources = corev1.ResourceRequirements{Requests: corev1.ResourceList{corev1.ResourceCPU: resource.MustParse(nv)}}
+				s.Store.ForceUpdate(st)
+				s.Probe("c10.perturb-setting")
+			}
+		}
+	case "override":
+		if acts := s.adminActions(); len(acts) > 0 {
+			var ov []Action
+			for _, a := range acts {
+				if strings.HasPrefix(a.K, "node.override") {
+					ov = append(ov, a)
+				}
+			}
+			if len(ov) > 0 {
+				a := ov[r.IntN(len(ov))]
+				s.logf("env %s", a.K)
+				a.Do()
+				s.Probe("c10.perturb-override")
+			}
+		}
+	case "template":
+		if e := s.Store.GetEDS(def.NS, def.Name); e != nil {
+			cur := letterOfTpl(&e.Spec.Template)
+			for _, l := range sortedKeys(def.Templates) {
+				if l != cur {
+					s.userSetTemplate(def.NS, def.Name, l)
+					s.Probe("c10.perturb-template")
+					break
+				}
+			}
+		}
+	}
+	s.Quiesce()
+}
+
 func init() {
-	register(&Profile{Name: "C10", Decide: []string{"C10"}, Quick: 1500, Thorough: 80000, Gen: genC10,
+	register(&Profile{Name: "C10", Decide: []string{"C10"}, Quick: 1500, Thorough: 80000, Gen: genC10, Body: bodyC10,
 		NonVacuous: []string{"C10.create", "C10.converged"}, Chunk: 50,
 		Rule: "Templates with/without affinity (several terms), node selectors, tolerations, 1-2 containers, resources; nodes with labels and well-formed or malformed resource-override annotations; 0-2 ExtendedDaemonsetSettings (valid, conflicting, edited); both node-assignment modes; single-field perturbations (template, override annotation, setting value) during the run; every pod create is judged, and at quiescence every pod must reflect the current inputs and a further round must not replace anything. " + histRule})
 }
@@ -948,6 +1020,11 @@ func genC05(r *rand.Rand, tier string, idx int) *World {
 		c.NoRestartsDuration = pick(r, "", "0s", "1m", "5m")
 	}
 	c.NodeSelector = nil
+	if chance(r, 0.5) {
+		for _, t := range w.EDS[0].Templates {
+			t.Side = true // two containers: which one restarted last matters for noRestartsDuration
+		}
+	}
 	w.Cfg.TemplateEdits = chance(r, 0.2)
 	w.Cfg.NodeChurn = false
 	w.Cfg.AnnotationEdits = true
